@@ -153,12 +153,21 @@ def check_case(case):
     path = "c18_roundtrip.nc"
     if os.path.exists(path):
         os.remove(path)
+    import copy
+
+    snap = {n_: [(r["flx"].copy(), r["conc"].copy(), r["timestamp"], dict(r["params"])) for r in lst] for n_, lst in results.items()}
+    cfg_before = copy.deepcopy(cfg)
     try:
         save_footprints_to_netcdf(results, cfg, path)
         ds = load_footprints_from_netcdf(path)
     except Exception as e:
         out.bad(f"save/load raised {type(e).__name__}: {e}")
         return out
+    if cfg != cfg_before or list(results.keys()) != list(snap.keys()) or any(
+            not (np.array_equal(r["flx"], b[0], equal_nan=True) and np.array_equal(r["conc"], b[1], equal_nan=True)
+                 and r["timestamp"] == b[2] and r["params"] == b[3])
+            for n_ in snap for r, b in zip(results[n_], snap[n_])):
+        out.bad("save_footprints_to_netcdf modified the results / configuration it was given")
     try:
         ds.load()
         fp = ds["footprint"].values
